@@ -919,7 +919,7 @@ class PrepareMessage(_MessageType):
                     "".format(flags=flags, pv=protocol_version))
 
         if ProtocolVersion.uses_keyspace_flag(protocol_version):
-            if self.keyspace:
+            if self.keyspace is not None:
                 write_string(f, self.keyspace)
 
 
@@ -959,7 +959,7 @@ class BatchMessage(_MessageType):
                 flags |= _WITH_SERIAL_CONSISTENCY_FLAG
             if self.timestamp is not None:
                 flags |= _PROTOCOL_TIMESTAMP_FLAG
-            if self.keyspace:
+            if self.keyspace is not None:
                 if ProtocolVersion.uses_keyspace_flag(protocol_version):
                     flags |= _WITH_KEYSPACE_FLAG
                 else:
